@@ -215,6 +215,9 @@ func MethodValue(p *packages.Package, e ast.Expr) *types.Func {
 }
 
 func ConstOf(p *packages.Package, e ast.Expr) constant.Value {
+	if e == nil {
+		return nil
+	}
 	if tv, ok := p.TypesInfo.Types[e]; ok {
 		return tv.Value
 	}
